@@ -1,5 +1,6 @@
 """C21 — OS readiness interest matches outstanding waits (typestate table + structural clauses)."""
 from rules.common import start
+from rules import wave3
 from rules import selector
 
 
@@ -16,4 +17,6 @@ def run(tier):
     selector.close_rule(run, f, "C21-CLOSE")
     selector.invalidate_rule(run, f, "C21-INVALIDATE")
     selector.per_selector_rule(run, f, "C21-PER-SELECTOR")
+    # clauses added for the wave-2 seeds (rules/wave2.py; DESIGN 12a)
+    wave3.inner_reaches_os_rule(run, f, "C21-INNER-REACHES-OS")
     return run.finish()
